@@ -1,75 +1,232 @@
 /-
 C16 — Permission patterns mean what the configuration guide says.
 Property theorems only; helper lemmas live in IpcHub/Lemmas/PathMatch*.lean.
+
+Model      : Model/PathMatch.lean (initMatchers, NewPathMatcher, pathMacher.Match, Scanner.Scan,
+             User.init, ValidatePermission), Model/GoUnicode.lean (unicode.ToLower, unicode.IsSpace).
+Spec       : Spec/PatternDoc.lean — the documented language written with core `List.splitOn` and
+             `List.dropWhile` only, Unicode tables for case and blanks.
+Characters : strings are `List Char`, i.e. sequences of Unicode scalar values = valid UTF-8.  Byte
+             strings that are NOT valid UTF-8 are outside every theorem here (stated exclusion; the
+             harness probes them: the implementation treats them like the string with each invalid
+             byte replaced by U+FFFD).
 -/
-import IpcHub.Lemmas.PathMatch2
+import IpcHub.Lemmas.PathMatch4
 import IpcHub.Model.PathMatchInst
+import IpcHub.Model.PathMatchExpect
 namespace IpcHub.Props.C16
-open IpcHub.PathMatch IpcHub.PatternLang
+open IpcHub.PathMatch IpcHub.PatternDoc
 
-/-- Generic form: for EVERY right string, admin flag and path (no bound on lengths, any
-    character functions), the implementation model — scanning loop of `initMatchers`,
-    `NewPathMatcher`, `pathMacher.Match`, `ValidatePermission` — decides exactly the
-    documented pattern language, provided path tokens are compared literally
-    (`pathScanner` does not trim) and ';' is not a blank. -/
-theorem c16_equiv_generic (cfg : Cfg) (h : cfg.pathTrims = false) (hd : cfg.isSpace ';' = false)
-    (right : List Char) (admin : Bool) (path : List Char) :
-    implPermits cfg right admin path = specPermits cfg.lower cfg.isSpace right admin path := by
-  unfold implPermits specPermits effectiveRight
-  rw [initMatchers_eq cfg hd, List.any_map]
-  apply any_congr_mem          -- pointwise on the patterns of the right string
-  intro pat hp
-  exact matches_eq cfg h pat _ (patterns_trimmed _ _ _ hp)
-
-/-- The source facts the theorem rests on, regenerated from /repo on every run. -/
+/-- The source facts the theorems rest on, regenerated from /repo on every run: the scanners'
+    delimiters and trim functions, the wildcard constants, the two right constants, and the bodies —
+    statement by statement — of every function the model mirrors (`NewPathMatcher`, both `Match`es,
+    `partCount`, `initMatchers`, `User.init`, `ValidatePermission`, `CopyFrom`, `Scanner.Scan`,
+    `NewScanner`), which fixes in particular the `strings.ToLower` / `strings.TrimSpace` /
+    `strings.Trim(·, "/")` calls, the guards of `Match`, the wiring of the two rights and the
+    administrator default (expected shapes: Model/PathMatchExpect.lean). -/
 theorem c16_source_facts :
     IpcHub.Gen.authFactsUnknown = [] ∧ IpcHub.Gen.pathScannerTrims = false ∧
     IpcHub.Gen.pathScannerDelim = "/" ∧ IpcHub.Gen.sectionWildcard = "+" ∧
-    IpcHub.Gen.endWildcard = "*" ∧ IpcHub.Gen.semicolonScanner = "';',unicode.IsSpace" := by
+    IpcHub.Gen.endWildcard = "*" ∧ IpcHub.Gen.semicolonScanner = Expected.semicolonScanner ∧
+    IpcHub.Gen.accessRights = Expected.accessRights ∧
+    IpcHub.Gen.pmSkel_NewPathMatcher = Expected.pmSkel_NewPathMatcher ∧
+    IpcHub.Gen.pmSkel_Match = Expected.pmSkel_Match ∧
+    IpcHub.Gen.pmSkel_AlwaysMatch = Expected.pmSkel_AlwaysMatch ∧
+    IpcHub.Gen.pmSkel_partCount = Expected.pmSkel_partCount ∧
+    IpcHub.Gen.pmSkel_initMatchers = Expected.pmSkel_initMatchers ∧
+    IpcHub.Gen.pmSkel_userInit = Expected.pmSkel_userInit ∧
+    IpcHub.Gen.pmSkel_ValidatePermission = Expected.pmSkel_ValidatePermission ∧
+    IpcHub.Gen.pmSkel_CopyFrom = Expected.pmSkel_CopyFrom ∧
+    IpcHub.Gen.pmSkel_Scan = Expected.pmSkel_Scan ∧
+    IpcHub.Gen.pmSkel_NewScanner = Expected.pmSkel_NewScanner := by
   decide
 
-/-- C16 for the current source tree: model instantiated with the regenerated facts. -/
+/-- Generic form: for EVERY right string, admin flag and path (no bound on lengths, ANY character
+    functions `lower`, `isSpace`), the implementation model — scanning loop of `initMatchers`,
+    `NewPathMatcher`, `pathMacher.Match`, `ValidatePermission` — decides exactly the documented
+    pattern language, provided path tokens are compared literally (`pathScanner` does not trim)
+    and ';' is not a blank. -/
+theorem c16_equiv_generic (cfg : Cfg) (h : cfg.pathTrims = false) (hd : cfg.isSpace ';' = false)
+    (right : List Char) (admin : Bool) (path : List Char) :
+    implPermits cfg right admin path = permits cfg.lower cfg.isSpace right admin path :=
+  implPermits_eq_doc cfg h hd right admin path
+
+/-- non-vacuity of `c16_equiv_generic`: Go's functions with the current source fact meet both
+    hypotheses -/
+example : goCfg.pathTrims = false ∧ goCfg.isSpace ';' = false := by decide
+
+/-- C16 for the current source tree, Go's own character functions, ALL Unicode strings: the model
+    instantiated with the regenerated facts and with `unicode.ToLower` / `unicode.IsSpace`
+    (complete tables of the toolchain, Model/GoUnicode.lean) decides the documented language read
+    with the same two functions. -/
 theorem c16_equiv (right : List Char) (admin : Bool) (path : List Char) :
-    implPermits genCfg right admin path = specPermits asciiLower asciiSpace right admin path :=
-  c16_equiv_generic genCfg c16_source_facts.2.1 (by decide) right admin path
+    implPermits goCfg right admin path
+      = permits IpcHub.GoUnicode.toLower IpcHub.GoUnicode.isSpace right admin path :=
+  c16_equiv_generic goCfg c16_source_facts.2.1 (by decide) right admin path
 
-/-- Corollaries named in the statement. -/
-theorem c16_empty_right_permits_nothing (path : List Char) :
-    implPermits genCfg [] false path = false := by
-  rw [c16_equiv]; simp [specPermits, patterns, splitOn, trim, trimLeft, trimRight]
+/-- `unicode.IsSpace` is exactly Unicode White_Space — for every character. -/
+theorem c16_blank_is_white_space (c : Char) : IpcHub.GoUnicode.isSpace c = uSpace c := by
+  rw [goSpace_eq_uSpace]
 
-theorem c16_admin_default_star (path : List Char) :
-    implPermits genCfg [] true path = true := by
+/-- `unicode.ToLower` is the Unicode simple lowercase mapping on the covered character class (all of
+    ASCII, all White_Space, the listed Latin-1 / Latin Extended / Greek / Cyrillic / Georgian /
+    letterlike / fullwidth / Deseret letters with and without case, marks, format characters,
+    U+FFFD, an emoji, private use). -/
+theorem c16_lower_on_covered (c : Char) (h : covered c = true) :
+    IpcHub.GoUnicode.toLower c = uLower c :=
+  goLower_eq_uLower c h
+
+/-- non-vacuity: the class has cased non-ASCII members (É, İ, K kelvin, 𐐀) and blanks beyond ' ' -/
+example : covered 'É' = true ∧ covered 'İ' = true ∧ covered (Char.ofNat 0x212A) = true ∧
+    covered (Char.ofNat 0x10400) = true ∧ covered (Char.ofNat 0x3000) = true ∧ uLower 'É' = 'é' ∧
+    uLower 'İ' = 'i' ∧ uSpace (Char.ofNat 0xA0) = true ∧ uSpace (Char.ofNat 0x200B) = false := by
+  decide
+
+/-- C16, headline: for every right string and path OVER THE COVERED CHARACTER CLASS (no bound on
+    lengths) and either admin flag, the implementation model decides the documented language read
+    with the specification's own Unicode tables — simple lowercase mapping, White_Space.
+    Characters outside the class: see `c16_equiv` (there the specification is read with Go's
+    `unicode.ToLower`, whose agreement with the Unicode mapping is not proved here). -/
+theorem c16_equiv_covered (right : List Char) (admin : Bool) (path : List Char)
+    (hr : ∀ c ∈ right, covered c = true) (hp : ∀ c ∈ path, covered c = true) :
+    implPermits goCfg right admin path = permits uLower uSpace right admin path := by
+  rw [c16_equiv, goSpace_eq_uSpace]
+  exact permits_congr_lower _ _ _ right admin path (by decide)
+    (fun c hc => goLower_eq_uLower c (hr c hc)) (fun c hc => goLower_eq_uLower c (hp c hc))
+
+/-- non-vacuity of `c16_equiv_covered`: a right with a blank-padded, mixed-case, non-ASCII pattern
+    and a path that it permits -/
+example :
+    (∀ c ∈ " /É/+/*; b".toList, covered c = true) ∧ (∀ c ∈ "\t/é/x/y/ ".toList, covered c = true) ∧
+    permits uLower uSpace " /É/+/*; b".toList false "\t/é/x/y/ ".toList = true := by
+  decide
+
+/-- The user level (`User.init` + `ValidatePermission`): the patterns of the RELEVANT right decide —
+    the pull right for `PullRight`, the push right for `PushRight` — each with the administrator
+    default; any other value of the right type is refused. -/
+theorem c16_user_equiv (u : User) (path : List Char)
+    (hpull : ∀ c ∈ u.pull, covered c = true) (hpush : ∀ c ∈ u.push, covered c = true)
+    (hp : ∀ c ∈ path, covered c = true) :
+    implValidate goCfg u path .pull
+        = userPermits uLower uSpace ⟨u.admin, u.pull, u.push⟩ .pull path ∧
+    implValidate goCfg u path .push
+        = userPermits uLower uSpace ⟨u.admin, u.pull, u.push⟩ .push path ∧
+    implValidate goCfg u path .other = false := by
+  refine ⟨?_, ?_, implValidate_other _ _ _⟩
+  · rw [implValidate_pull]; exact c16_equiv_covered _ _ _ hpull hp
+  · rw [implValidate_push]; exact c16_equiv_covered _ _ _ hpush hp
+
+/-- non-vacuity of `c16_user_equiv`, and the two rights really are separate: a user who may pull
+    `/a/*` and push `/b` -/
+example :
+    let u : User := ⟨false, "/a/*".toList, "/b".toList⟩
+    implValidate goCfg u "/a/x".toList .pull = true ∧ implValidate goCfg u "/a/x".toList .push = false ∧
+    implValidate goCfg u "/B".toList .push = true ∧ implValidate goCfg u "/b".toList .pull = false := by
+  decide
+
+/-- The ASCII instance `genCfg` on which the C11 model is built decides the same language
+    (formulation `PatternLang.specPermits`, equal to `permits` by `specPermits_eq_doc`). -/
+theorem c16_equiv_ascii (right : List Char) (admin : Bool) (path : List Char) :
+    implPermits genCfg right admin path
+      = IpcHub.PatternLang.specPermits asciiLower asciiSpace right admin path := by
+  rw [specPermits_eq_doc]
+  exact c16_equiv_generic genCfg c16_source_facts.2.1 (by decide) right admin path
+
+/-! ### the clauses of the statement, about the specification the model was proved equal to -/
+
+/-- "A path is permitted exactly when at least one pattern of the relevant right matches." -/
+theorem c16_permitted_iff_some_pattern (right : List Char) (path : List Char) :
+    implPermits goCfg right false path = true ↔
+      ∃ pat ∈ patterns IpcHub.GoUnicode.isSpace right,
+        patMatch IpcHub.GoUnicode.toLower pat (strip IpcHub.GoUnicode.isSpace path) = true := by
   rw [c16_equiv]
-  simp [specPermits, patterns, splitOn, trim, trimLeft, trimRight, asciiSpace, patMatch]
+  simp [permits, List.any_eq_true]
+
+/-- "An empty right permits nothing …" -/
+theorem c16_empty_right_permits_nothing (path : List Char) :
+    implPermits goCfg [] false path = false := by
+  rw [c16_equiv]; simp [permits, patterns, strip]
+
+/-- "… except that an administrator with an empty right gets '*'", and "'*' alone matches
+    everything". -/
+theorem c16_admin_default_star (path : List Char) :
+    implPermits goCfg [] true path = true ∧ implPermits goCfg ['*'] false path = true := by
+  rw [c16_equiv, c16_equiv]
+  constructor <;> simp [permits, patterns, strip, patMatch, List.splitOn, List.splitOnP, List.splitOnPPrepend,
+    IpcHub.GoUnicode.isSpace, IpcHub.GoUnicode.isSpaceRune]
+
+/-- "A literal segment matches itself, '+' matches exactly one arbitrary segment": two segment
+    lists match as fixed segments exactly when they have the same length and every position has a
+    `+` or the same (case-folded) segment. -/
+theorem c16_fixed_segments (ps xs : List (List Char)) :
+    fixedMatch ps xs = true ↔
+      ps.length = xs.length ∧ ∀ px ∈ ps.zip xs, px.1 = ['+'] ∨ px.1 = px.2 := by
+  induction ps generalizing xs with
+  | nil => cases xs <;> simp [fixedMatch]
+  | cons p ps ih =>
+    cases xs with
+    | nil => simp [fixedMatch]
+    | cons x xs =>
+      have h := ih xs
+      simp only [fixedMatch, Bool.and_eq_true, beq_iff_eq] at h
+      simp only [fixedMatch, List.length_cons, List.zipWith_cons_cons, List.all_cons, id,
+        Bool.and_eq_true, beq_iff_eq, Nat.add_right_cancel_iff, List.zip_cons_cons,
+        List.forall_mem_cons, segOk, Bool.or_eq_true]
+      constructor
+      · rintro ⟨hl, ho, ha⟩
+        exact ⟨hl, ho, (h.mp ⟨hl, ha⟩).2⟩
+      · rintro ⟨hl, ho, ha⟩
+        exact ⟨hl, ho, (h.mpr ⟨hl, ha⟩).2⟩
+
+/-- "A trailing '*' matches zero or more remaining segments": the fixed segments in front of it
+    must match a prefix of the path's segments, whatever follows. -/
+theorem c16_trailing_star (fixed xs : List (List Char)) :
+    segsMatch (fixed ++ [['*']]) xs = true ↔
+      ∃ ys zs, xs = ys ++ zs ∧ fixedMatch fixed ys = true := by
+  simp only [segsMatch, List.getLast?_append, List.getLast?_singleton, Option.some_or, if_true,
+    List.dropLast_concat, Bool.and_eq_true, decide_eq_true_eq]
+  constructor
+  · rintro ⟨_, hm⟩
+    exact ⟨xs.take fixed.length, xs.drop fixed.length, (List.take_append_drop _ _).symm, hm⟩
+  · rintro ⟨ys, zs, rfl, hm⟩
+    have hl : fixed.length = ys.length := by
+      simp only [fixedMatch, Bool.and_eq_true, beq_iff_eq] at hm; exact hm.1
+    refine ⟨by simp [hl], ?_⟩
+    rw [hl, List.take_left']
+    · exact hm
+    · rfl
+
+/-- "A pattern without trailing '*' matches only paths with the same number of segments." -/
+theorem c16_no_star_same_count (ps xs : List (List Char)) (h : ps.getLast? ≠ some ['*'])
+    (hm : segsMatch ps xs = true) : ps.length = xs.length := by
+  simp only [segsMatch, h, if_false, fixedMatch, Bool.and_eq_true, beq_iff_eq] at hm
+  exact hm.1
+
+/-- non-vacuity of `c16_no_star_same_count` -/
+example : (segments uLower "/a/+".toList).getLast? ≠ some ['*'] ∧
+    segsMatch (segments uLower "/a/+".toList) (segments uLower "A/b/".toList) = true := by decide
 
 /-- Why the hypothesis `pathTrims = false` is needed: with a trimming path scanner (the code
-    before the fix) the matcher fails open and closed.  Replayed on the implementation by the
-    harness (corpus/C16/segment-whitespace.case). -/
+    before the fix 9ca5877) the matcher fails open and closed.  Replayed on the implementation by
+    the harness (corpus/C16/segment-whitespace.case). -/
 theorem c16_trimming_scanner_counterexample :
     let cfgT : Cfg := { lower := asciiLower, isSpace := asciiSpace, pathTrims := true }
     implPermits cfgT ['/', 'a', '/', 'b'] false ['/', 'a', ' ', '/', 'b'] = true ∧
-    specPermits asciiLower asciiSpace ['/', 'a', '/', 'b'] false ['/', 'a', ' ', '/', 'b'] = false ∧
+    permits uLower uSpace ['/', 'a', '/', 'b'] false ['/', 'a', ' ', '/', 'b'] = false ∧
     implPermits cfgT ['/', 'a', ' ', '/', 'b'] false ['/', 'a', ' ', '/', 'b'] = false ∧
-    specPermits asciiLower asciiSpace ['/', 'a', ' ', '/', 'b'] false ['/', 'a', ' ', '/', 'b'] = true := by
+    permits uLower uSpace ['/', 'a', ' ', '/', 'b'] false ['/', 'a', ' ', '/', 'b'] = true := by
   decide
 
 /-- The examples of docs/config.md §3.2, as a sanity check that the specification is the
     documented language (these are tests of the spec, not the unbounded claim). -/
 theorem c16_doc_examples :
-    let P := specPermits asciiLower asciiSpace
-    P ['/','a'] false ['/','a'] = true ∧ P ['/','a'] false ['/','a','/','b'] = false ∧
-    P ['/','a','/','*'] false ['/','a'] = true ∧ P ['/','a','/','*'] false ['/','a','/','b'] = true ∧
-    P ['/','a','/','*'] false ['/','a','/','b','/','c'] = true ∧
-    P ['/','a','/','+','/','c','/','*'] false ['a','/','b','/','c'] = true ∧
-    P ['/','a','/','+','/','c','/','*'] false ['a','/','d','/','c'] = true ∧
-    P ['/','a','/','+','/','c','/','*'] false ['a','/','b','/','c','/','d'] = true ∧
-    P ['/','a','/','+','/','c','/','*'] false ['a','/','b','/','c','/','d','/','e'] = true ∧
-    P ['/','a','/','+','/','c','/','*'] false ['a','/','c'] = false ∧
-    P ['*'] false ['/','x','/','y'] = true := by
+    let P := fun (r p : String) => permits uLower uSpace r.toList false p.toList
+    P "/a" "/a" = true ∧ P "/a" "/a/b" = false ∧
+    P "/a/*" "/a" = true ∧ P "/a/*" "/a/b" = true ∧ P "/a/*" "/a/c" = true ∧ P "/a/*" "/a/b/c" = true ∧
+    P "/a/+/c/*" "a/b/c" = true ∧ P "/a/+/c/*" "a/d/c" = true ∧ P "/a/+/c/*" "a/b/c/d" = true ∧
+    P "/a/+/c/*" "a/b/c/d/e" = true ∧ P "/a/+/c/*" "a/c" = false ∧
+    P "*" "/x/y" = true ∧ P "/test/*;/rooms/*" "/Rooms/1" = true ∧ P "/rooms/+/entrance" "/rooms/1/entrance" = true ∧
+    P "/rooms/+/entrance" "/rooms/entrance" = false := by
   decide
-
-/-- non-vacuity: the hypotheses of `c16_equiv_generic` are met by the ASCII instance -/
-example : ({ lower := asciiLower, isSpace := asciiSpace, pathTrims := false } : Cfg).isSpace ';' = false := by decide
 
 end IpcHub.Props.C16
